@@ -116,6 +116,14 @@ def oracle(out, rng, n, sweep):
 
 def scenario_oracle(sc, res):
     import p_c04
+    if isinstance(sc.get('meta'), dict) and sc['meta'].get('kind') == 'name-changed-between-contests':
+        state, dev, ann, started = res.cas[0][0]
+        keeps = (state == 2 and dev == sc['meta']['addr'])
+        return [dict(kind='arbitration-not-decided-by-the-name-the-ca-has-now', final_state=state, final_address=dev)] if keeps == sc['meta']['contender_is_lower'] else []
+    if isinstance(sc.get('meta'), dict) and sc['meta'].get('kind') == 'reserved-bit-on-the-wire':
+        state, dev, ann, started = res.cas[0][0]
+        keeps = (state == 2 and dev == sc['meta']['addr'])
+        return [dict(kind='arbitration-decided-by-the-reserved-bit-of-the-contender', final_state=state, final_address=dev)] if keeps == sc['meta']['contender_is_lower'] else []
     return [x for x in p_c04.oracle(sc, res) if x['kind'] in ('lowest-name-does-not-keep', 'duplicate-address')]
 
 
@@ -123,7 +131,7 @@ def run(out, tier, rng, work):
     out.rule = ('item-level correspondence: bit-walking/boundary/random inputs through the real classes vs the generated Coq '
                 'definitions (vm_compute); oracle: round-trip and SAE-position predicates on the real classes vs plain-arithmetic '
                 'reference; non-trivial = every input (each exercises the codec); distinct by input value'
-                ' Arbitration NAMEs also differ in exactly two fields in opposite directions, every pair of the nine fields in turn.')
+                ' Plus: a contender whose NAME has the reserved bit set on the wire; a CA whose application changes its identity number between two contests.  Arbitration NAMEs also differ in exactly two fields in opposite directions, every pair of the nine fields in turn.')
     C.std_proof_stage(out, 'C15', FILES)
     n = 400 if tier == 'quick' else 4000
     total, mism, errors = items.run_items(ITEMS, rng, n, work, C)
@@ -195,5 +203,48 @@ def run(out, tier, rng, work):
         for x in p_c04.oracle(sc, res):
             if x['kind'] in ('lowest-name-does-not-keep', 'duplicate-address', 'claim-exchange-never-ends') and x['kind'] not in worst:
                 worst[x['kind']] = (x, sc)
+    # a contender that is not this library: its NAME arrives with the reserved bit SET on the wire.  The comparison is the one of
+    # the NAME values ("the reserved bit reading as 0"): with everything above bit 48 equal, the lower 48 bits decide
+    for k in range(12 if tier == 'quick' else 120):
+        a = rng.getrandbits(64) & ~(1 << 48) & ~(1 << 63)        # (a fixed-address CA: a loss ends in cannot-claim)
+        low_a = a & ((1 << 48) - 1)
+        if low_a in (0, (1 << 48) - 1):
+            continue
+        lower = k % 3 != 2
+        low_b = rng.randrange(0, low_a) if lower else rng.randrange(low_a + 1, 1 << 48)
+        b_wire = (a & ~((1 << 48) - 1)) | low_b | (1 << 48)
+        addr = rng.choice(gen_ca.VETO)
+        sc = dict(stacks=[dict(dll=rng.choice(['j1939-21', 'j1939-22']), max_cmdt=1, subs=[], cas=[dict(name=a, addr=addr, bypass=False, subs=[1], req=[2])])],
+                  lat=[1], jit=[1], horizon=2_000_000, script=[dict(t=1000, s=0, op='ca_start', ca=0, delay=0)],
+                  inject=[dict(t=rng.choice([100000, 600000]), to=0, id=R.ref_can_id(6, 0xEEFF, addr), data=R.ref_le_bytes(b_wire, 8), via='listener')],
+                  meta=dict(kind='reserved-bit-on-the-wire', own=hex(a), contender_on_wire=hex(b_wire), contender_is_lower=lower, addr=addr))
+        res = scen.run(sc)
+        out.add_case(('arbitration-reserved', a, b_wire, addr), True)
+        state, dev, ann, started = res.cas[0][0]
+        keeps = (state == 2 and dev == addr)
+        if keeps == lower and 'reserved-bit' not in worst:
+            worst['reserved-bit'] = (dict(kind='arbitration-decided-by-the-reserved-bit-of-the-contender', meta=sc['meta'], final_state=state, final_address=dev), sc)
+    # the application changes its NAME (the identity number) between two contests: each contest is decided by the NAME the CA has
+    # THEN — the one its address-claimed frames carry
+    for k in range(10 if tier == 'quick' else 100):
+        a = (rng.getrandbits(64) & ~(1 << 48) & ~(1 << 63) & ~((1 << 21) - 1)) | (1 << 20)      # identity number 0x100000
+        up = k % 2 == 0
+        new_id = (1 << 20) + 4096 if up else (1 << 20) - 4096
+        a2 = (a & ~((1 << 21) - 1)) | new_id
+        between = (a & ~((1 << 21) - 1)) | ((1 << 20) + (2048 if up else -2048))
+        weak = a | (1 << 63)                                   # a first contender that loses in any case (fills whatever is remembered)
+        addr = rng.choice(gen_ca.VETO)
+        sc = dict(stacks=[dict(dll=rng.choice(['j1939-21', 'j1939-22']), max_cmdt=1, subs=[], cas=[dict(name=a, addr=addr, bypass=False, subs=[1], req=[2])])],
+                  lat=[1], jit=[1], horizon=2_500_000,
+                  script=[dict(t=1000, s=0, op='ca_start', ca=0, delay=0), dict(t=800000, s=0, op='ca_set_identity', ca=0, value=new_id)],
+                  inject=[dict(t=500000, to=0, id=R.ref_can_id(6, 0xEEFF, addr), data=R.ref_le_bytes(weak, 8), via='listener'),
+                          dict(t=1_200_000, to=0, id=R.ref_can_id(6, 0xEEFF, addr), data=R.ref_le_bytes(between, 8), via='listener')],
+                  meta=dict(kind='name-changed-between-contests', own_before=hex(a), own_after=hex(a2), contender=hex(between), contender_is_lower=(between < a2), addr=addr))
+        res = scen.run(sc)
+        out.add_case(('arbitration-renamed', a, new_id, addr), True)
+        state, dev, ann, started = res.cas[0][0]
+        keeps = (state == 2 and dev == addr)
+        if keeps == (between < a2) and 'renamed' not in worst:
+            worst['renamed'] = (dict(kind='arbitration-not-decided-by-the-name-the-ca-has-now', meta=sc['meta'], final_state=state, final_address=dev), sc)
     for kind, (x, sc) in worst.items():
         out.violation('arbitration %s: %s' % (kind, _json.dumps(x, default=str)[:300]), dict(kind='arbitration-' + kind), dict(broke='oracle', scenario=sc, violation=x))
